@@ -115,6 +115,7 @@ def scenario(ctx, case):
         def __init__(self, *a, **k):
             super().__init__(*a, **k)
             self._verif_first = None
+            self._verif_retry_cid = None
             st["protos"].append(self)
 
         def datagram_received(self, data, addr):
@@ -124,7 +125,11 @@ def scenario(ctx, case):
                 srv = st["server"]
                 if srv is not None and srv._retry is not None:
                     try:
-                        token = R.split_datagram(bytes(data), 8, require_fixed_bit=False)[0].token
+                        info = R.split_datagram(bytes(data), 8, require_fixed_bit=False)[0]
+                        token = info.token
+                        if token:
+                            # the destination connection ID of a token-carrying Initial is the source connection ID of the server's Retry packet
+                            self._verif_retry_cid = bytes(info.dcid)
                     except Exception:  # noqa
                         token = None
                     if (addr, bytes(token or b"")) not in st["issued"]:
@@ -169,6 +174,8 @@ def scenario(ctx, case):
         for p in st["protos"]:
             if p._closed.is_set() or p._verif_first is None:
                 continue
+            if p._verif_retry_cid is not None and srv._protocols.get(p._verif_retry_cid) is not p:
+                V("live-connection-unreachable-through-retry-connection-id", "the connection was created by an Initial addressed to %s, the connection ID the server issued in its Retry packet and the client keeps using until it hears from the server; that ID is %s in the routing table" % (p._verif_retry_cid.hex(), "absent" if p._verif_retry_cid not in srv._protocols else "routed elsewhere"))
             for c in p._quic._host_cids:
                 if not c.was_sent and c.sequence_number != 0:
                     continue  # generated but not yet put into a NEW_CONNECTION_ID frame: the peer cannot know it
